@@ -103,3 +103,21 @@ pub open spec fn walk_known(ps: Map<PathKey, Node>, sources: Seq<PathBuf>) -> bo
     forall|i: int, j: int| 0 <= i < sources.len() && 0 <= j < walk_seq(sources[i].key()).len() && (#[trigger] walk_seq(sources[i].key())[j]) is Ok
         ==> ps.contains_key(walk_seq(sources[i].key())[j]->Ok_0.pathkey())
 }
+
+/// status updates: events that announce or report, but create / queue nothing
+pub open spec fn is_update(e: Event) -> bool { e is SendSize || e is SendCopied || e is SendError }
+/// among the events from position `n0` on, `ev` occurs exactly once and everything else is a status update
+pub open spec fn sole_effect(tr: Seq<Event>, n0: int, ev: Event) -> bool {
+    exists|k: int| n0 <= k < tr.len() && #[trigger] tr[k] == ev
+        && (forall|j: int| n0 <= j < tr.len() && j != k ==> is_update(#[trigger] tr[j]))
+}
+/// ... the one effect being a Copy onto `t` of some path that designates inode `ino`
+pub open spec fn sole_copy_queued(tr: Seq<Event>, n0: int, t: PathKey, ino: Inode, ps: Map<PathKey, Node>) -> bool {
+    exists|k: int| n0 <= k < tr.len() && copy_queued(#[trigger] tr[k], t, ino, ps)
+        && (forall|j: int| n0 <= j < tr.len() && j != k ==> is_update(#[trigger] tr[j]))
+}
+/// ... the one effect being a Special operation onto `t`
+pub open spec fn sole_special_queued(tr: Seq<Event>, n0: int, t: PathKey) -> bool {
+    exists|k: int| n0 <= k < tr.len() && (#[trigger] tr[k]) is Queue && tr[k]->Queue_0 is Special && tr[k]->Queue_0->Special_1 == t
+        && (forall|j: int| n0 <= j < tr.len() && j != k ==> is_update(#[trigger] tr[j]))
+}
